@@ -206,7 +206,7 @@ PROPS["C04"] = {
             "each case is executed 12 times (6 fresh WAFs, 6 consecutive transactions on one WAF) and the canonical outcomes (interruption, "
             "ordered fired ids, per-rule multiset of triples, TX map, HIGHEST_SEVERITY) must be identical; the runtime's map iteration order "
             "is the adversary; non-trivial = >=2 rules fire, >=1 transformation and a collection with >=3 entries and a repeated name",
-    "essential": {"all": ["kind:matching", "kind:scoring", ">=3-entries-with-repeated-name", "argument-count-above-limit", "interrupted", "first-value-readers"]},
+    "essential": {"all": ["kind:matching", "kind:scoring", ">=3-entries-with-repeated-name", "argument-count-above-limit", "interrupted", "first-value-readers", "other-requests-in-between"]},
     "assumptions": COMMON_ASSUME + [
         "a divergence that occurs with probability p per run survives 12 repetitions with probability (1-p)^12",
         "order-sensitive effects (assigning %{MATCHED_VAR} over several matches) are not generated",
@@ -384,8 +384,8 @@ PROPS["C19"] = {
 
 PROPS["C06"] = {
     "level": "exploration",
-    "runs": [run("TestC06", (12, 3), (250, 6), variant="race", env=RACE_ENV),
-             run("TestC06", (4, 1), (120, 4), variant="racemp", env=RACE_ENV, tiers=("thorough",))],
+    "runs": [run("TestC06", (12, 3), (250, 6), variant="race", env=RACE_ENV, shrinktime="1s"),
+             run("TestC06", (4, 1), (120, 4), variant="racemp", env=RACE_ENV, tiers=("thorough",), shrinktime="1s")],
     "cap_s": {"quick": 900, "thorough": 7200},
     "replay_variant": "race",
     "rule": "cases = generated configuration (rules sharing transformation chains, @pm / @rx / @restpath, a rule with >=3 static exclusions, "
